@@ -76,6 +76,10 @@ def main(argv):
             if extra['differential']['mismatches']: inconclusive.append(f"differential validation: interpreter and real crate disagree on {extra['differential']['mismatches']} concrete cases: {json.dumps(extra['differential']['examples'])[:1500]}")
         except (Unsupported, Inconclusive) as e:
             inconclusive.append(f'differential validation failed: {e}')
+    if getattr(mod, 'BUILD_PROBES', False):
+        # the irregular states behind the recorded findings, produced by the real builder (ModuleGraph::build + MemoryLoader)
+        try: extra['build_probes'] = harness.run_replay({'world': {'build_probes': True}, 'ops': []}, fast_check=True)
+        except Exception as e: extra['build_probes'] = {'error': str(e)[:300]}
     wall = time.time() - t0
     write_evidence(prop, tier, seed, mir, recs, inconclusive, wall, extra, mod)
     violations = [v for r in recs for v in r['violations']]
@@ -127,6 +131,7 @@ def write_evidence(prop, tier, seed, mir, recs, inconclusive, wall, extra, mod=N
             'solver_seconds': round(sum(r['solver_s'] for r in recs), 1),
             'known_findings_reproduced': [{'signature': k['signature'], 'query': k['query'], 'example': k['example']} for r in recs for k in r['known']][:6],
             'differential_validation': diff,
+            'build_reachability_probes': extra.get('build_probes'),
             'inconclusive': inconclusive[:20],
             'exhaustive': False,
         },
